@@ -4,6 +4,7 @@ import (
 	"fmt"
 	"go/token"
 	"go/types"
+	"sort"
 	"strings"
 
 	"golang.org/x/tools/go/ssa"
@@ -210,13 +211,42 @@ func checkC16(c *Ctx, r *Report) {
 	r.rule("C16.R5", "reflect Set in the special-type cases is type-correct", 3)
 
 	posts := c16Posts(c, r, "C16.R1")
-	decodeFns := []string{"parseTagAndLength", "parseBitString", "parseInt64", "ParseField", "UnmarshalWithParams", "Unmarshal"}
+	// the decode path: the package functions reachable from the entry points that take the input octets
+	for _, name := range []string{"parseTagAndLength", "parseBitString", "parseInt64", "ParseField", "UnmarshalWithParams", "Unmarshal"} {
+		c.fn("cdr/asn", name) // anchors
+	}
+	reachDec, _ := c.reach([]*ssa.Function{c.fn("cdr/asn", "UnmarshalWithParams"), c.fn("cdr/asn", "Unmarshal")})
+	var decodeFns []*ssa.Function
+	for f := range reachDec {
+		if f.Pkg != nil && f.Pkg.Pkg.Path() == asnPath && f.Parent() == nil && len(f.Blocks) > 0 && hasByteSliceParam(f) {
+			decodeFns = append(decodeFns, f)
+		}
+	}
+	sort.Slice(decodeFns, func(i, j int) bool { return decodeFns[i].Name() < decodeFns[j].Name() })
 	nsites := 0
-	for _, name := range decodeFns {
-		f := c.fn("cdr/asn", name)
+	for _, f := range decodeFns {
 		e := newRelEngine(c, f, posts)
 		e.prime()
 		cnt := map[string]int{}
+		// shift distances: a negative distance panics at run time
+		nshift := 0
+		eachInstr(f, func(_ *ssa.BasicBlock, _ int, ins ssa.Instruction) {
+			bo, ok := ins.(*ssa.BinOp)
+			if !ok || (bo.Op != token.SHL && bo.Op != token.SHR) {
+				return
+			}
+			if _, isConst := bo.Y.(*ssa.Const); isConst {
+				return
+			}
+			yt, ok := bo.Y.Type().Underlying().(*types.Basic)
+			if !ok || yt.Info()&types.IsUnsigned != 0 {
+				return // unsigned distances cannot be negative
+			}
+			nshift++
+			key := fmt.Sprintf("%s|shift distance #%d", fnKey(f), nshift)
+			okp, _ := e.prove(polyAdd(poly{}, e.fe.eval(bo.Y), -1), 0, nil, bo.Block())
+			r.check(okp, "C16.R1", key, posOf(c, bo), "the signed shift distance is shown to be >= 0", "the shift distance "+e.fe.eval(bo.Y).String()+" is a signed value not shown to be >= 0 on this path: a negative distance is a run-time panic (e.g. 64 - 8*len for more than 8 contents octets)")
+		})
 		eachInstr(f, func(_ *ssa.BasicBlock, _ int, ins ssa.Instruction) {
 			var base, idx, lo, hi ssa.Value
 			kind := ""
@@ -699,6 +729,17 @@ func hasOctetParam(f *ssa.Function) bool {
 			return true
 		}
 		if b, ok := p.Type().Underlying().(*types.Basic); ok && b.Kind() == types.Uint8 {
+			return true
+		}
+	}
+	return false
+}
+
+// hasByteSliceParam: the function takes (part of) the input octets; strings
+// (struct tags, parameter strings) are not input.
+func hasByteSliceParam(f *ssa.Function) bool {
+	for _, p := range f.Params {
+		if sl, ok := p.Type().Underlying().(*types.Slice); ok && sizeOfBasic(sl.Elem()) == 1 {
 			return true
 		}
 	}
